@@ -1,10 +1,10 @@
 #!/usr/bin/env python3
-"""usage: tools/ingest_seed.py <PID> <A|B> [--src /tmp/wt_<PID>]
+"""usage: tools/ingest_seed.py <PID> <A|B|...> [--src /tmp/wt_<PID>]
 Verifies a seeded change produced by an independent agent and records it under
 /verif/seeded/<PID>-<X>/ :
   1. fresh scratch worktree of /repo HEAD; demo passes there;
   2. apply the patch; pinned suite still has its 74 baseline passes; demo FAILS;
-  3. apply the patch to /repo, run every check (no evidence written), revert;
+  3. apply the patch to a scratch copy of the package and run every check on it (--root; no evidence written);
   4. write patch.diff, demo.py, meta.json (what was run and what each check said).
 Never commits anything to /repo."""
 import json
@@ -33,6 +33,27 @@ def suite(cwd):
                 ok.add(tc.get("classname") + "::" + tc.get("name"))
         os.remove(xml)
     return sorted(BASE - ok)
+
+
+def run_checks_on_copy(patch, checks=None):
+    sc = tempfile.mkdtemp(prefix="ingest-sc-")
+    results = {}
+    try:
+        shutil.copytree("/repo/gffutils", os.path.join(sc, "gffutils"))
+        sh("git init -q .", cwd=sc)
+        c, o = sh("git apply %s" % patch, cwd=sc)
+        assert c == 0, "patch does not apply to a copy of the package: %s" % o
+        for i in range(1, 21):
+            p = "C%02d" % i
+            if checks and p not in checks:
+                continue
+            code, out = sh("/venv/bin/python -m gffsa check %s --no-write --root %s" % (p, sc), cwd="/verif")
+            if code != 0:
+                lines = [l.replace(sc, "<copy>") for l in out.splitlines() if l.startswith(("VIOLATION", "ANALYSIS-ERROR", "  gffutils", "  obligation"))]
+                results[p] = {"exit": code, "report": lines[:9]}
+    finally:
+        shutil.rmtree(sc, ignore_errors=True)
+    return results
 
 
 def main():
@@ -70,20 +91,8 @@ def main():
     print("demo clean=%d demo changed=%d suite lost=%s -> %s" % (c0, c1, missing, "VALID" if valid else "REJECTED"))
     if not valid:
         return 1
-    # ---- run the checks against /repo with the patch applied
-    c, o = sh("git -C /repo diff --quiet")
-    assert c == 0, "/repo not clean"
-    sh("git -C /repo apply %s" % patch)
-    results = {}
-    try:
-        for i in range(1, 21):
-            p = "C%02d" % i
-            code, out = sh("/venv/bin/python -m gffsa check %s --no-write" % p, cwd="/verif")
-            if code != 0:
-                lines = [l for l in out.splitlines() if l.startswith(("VIOLATION", "ANALYSIS-ERROR", "  gffutils", "  obligation"))]
-                results[p] = {"exit": code, "report": lines[:9]}
-    finally:
-        sh("git -C /repo checkout -- .")
+    # ---- run the checks on a scratch copy of the package with the patch applied (/repo itself is not touched)
+    results = run_checks_on_copy(patch)
     meta["checks_reporting"] = results
     meta["detected_by_own_property"] = results.get(pid, {}).get("exit") == 1
     meta["detected_by"] = sorted(k for k, v in results.items() if v["exit"] == 1)
